@@ -33,6 +33,9 @@ def dispatch(prop, tier, seed):
     if prop == 'C17':
         from . import abi_layout
         return abi_layout.run_check(tier, seed)
+    if prop == 'C15':
+        from . import thread_exit
+        return thread_exit.run_check(tier, seed)
     if prop == 'C01':
         from . import end_to_end
         return end_to_end.run_check(tier, seed)
